@@ -45,6 +45,14 @@ CHECKS.update({
             "visibility oracle, value bound, flag moves; whole-step clauses at the class boundary",
             "every layout class of valid/invalid/8/9 pixels, both methods; traced pipelines with filling", "3 C14"),
 })
+CHECKS.update({
+    "C10": ("reference-model monitor (per-pixel nan-median / Gaussian-weighted mean over the valid window) on the datasets "
+            "captured around every filter execution; untouched-set and mask invariants",
+            "map sizes around the 50/100-pixel block boundaries, odd/even bilateral widths, invalid pixels anywhere", "3 C10"),
+    "C11": ("reference-model monitor (brute-force combined cross-support region walk) on the cost volumes captured around "
+            "the aggregation step; metamorphic plane-independence relation",
+            "SAD/census exact, ZNCC 1e-4; masks, subpix, distances 1-8, intensities 1-200", "3 C11"),
+})
 NOTES = {}
 
 def main():
